@@ -223,34 +223,58 @@ def check_structures(ctx, classes, facts, items):
     ctx.floor("functions with a structure", n, 100)
 
 
+REF_LOOKUP = {
+    "function": """
+def function(self, stream, function):
+    functions = [func for func in self._functions if func.stream == stream and func.function == function]
+    if len(functions) == 0:
+        return None
+    if len(functions) > 1:
+        raise ValueError()
+    return functions[0]
+""",
+    "decode": """
+def decode(self, message):
+    if message is None:
+        raise ValueError()
+    func = self.function(message.header.stream, message.header.function)
+    if func is None:
+        raise ValueError()
+    if isinstance(message.data, SecsStreamFunction):
+        return message.data
+    function = func()
+    function.decode(message.data)
+    return function
+""",
+    "sf_encode": """
+def encode(self):
+    if self.data is None:
+        return b""
+    return self.data.encode()
+""",
+    "sf_decode": """
+def decode(self, data):
+    if self.data is not None:
+        self.data.decode(data)
+""",
+}
+
+
 def check_lookup(ctx):
     repo = ctx.repo
     f = repo.method("StreamsFunctions", "function", inherited=False)
     ctx.touch(f)
-    ps, pf = [a.arg for a in f.node.args.args[1:3]]
-    comps = [n for n in walk_no_nested(f.node) if isinstance(n, ast.ListComp)]
-    ok = False
-    if len(comps) == 1 and len(comps[0].generators) == 1 and len(comps[0].generators[0].ifs) == 1:
-        g = comps[0].generators[0]
-        v = g.target.id
-        cond = g.ifs[0]
-        parts = cond.values if isinstance(cond, ast.BoolOp) and isinstance(cond.op, ast.And) else [cond]
-        txt = {norm(p) for p in parts}
-        ok = txt == {f"{v}.stream == {ps}", f"{v}.function == {pf}"} and norm(g.iter) == "self._functions" and norm(comps[0].elt) == v
-    ctx.ob("C03.P1", f.qualname, ok, "lookup keeps exactly the classes whose stream AND function equal the requested numbers" if ok else "lookup does not filter on both `stream ==` and `function ==`", key="filter", where=f.where)
-    cfg = cfg_of(f.node)
-    rets = [norm(n.ast.value) for n in cfg.real_nodes() if isinstance(n.ast, ast.Return)]
-    ok = "None" in rets and any(r.endswith("[0]") for r in rets) and any(isinstance(n.ast, ast.Raise) for n in cfg.real_nodes())
-    ctx.ob("C03.P1", f.qualname, ok, "none => None, one => that class, several => error" if ok else f"lookup returns {rets}", key="results", where=f.where)
+    from . import _codec
+
+    _codec.agree(ctx, "C03.P1", f, REF_LOOKUP["function"], {
+        "returns": "lookup keeps exactly the classes whose stream AND function equal the requested numbers: none => None, one => that class",
+        "raises": "several classes for one pair are an error",
+    }, key_prefix="filter ")
     d = repo.method("StreamsFunctions", "decode", inherited=False)
-    ctx.touch(d)
-    p = d.node.args.args[1].arg
-    calls = [c for c in calls_in(d.node) if call_name(c) == "self.function"]
-    ok = len(calls) == 1 and [norm(a) for a in calls[0].args] == [f"{p}.header.stream", f"{p}.header.function"]
-    ctx.ob("C03.P1", d.qualname, ok, "the class is selected by the header's stream and function only" if ok else "decode does not look the class up by (message.header.stream, message.header.function)", key="select", where=d.where)
-    txt = [norm(s) for s in rules.func_stmts(d.node)]
-    ok = "function = func()" in txt and f"function.decode({p}.data)" in txt and "return function" in txt
-    ctx.ob("C03.P1", d.qualname, ok, "the body is decoded into a fresh instance of that class" if ok else "decode does not build func() and decode message.data into it", key="fresh", where=d.where)
+    _codec.agree(ctx, "C03.P1", d, REF_LOOKUP["decode"], {
+        "returns": "the class is selected by the header's stream and function only; the body is decoded into a fresh instance of that class (an already decoded body is passed through)",
+        "raises": "a missing message or an unknown stream/function is refused",
+    }, key_prefix="fresh ")
     # default container owns a private copy of the catalogue
     init = repo.method("StreamsFunctions", "__init__", inherited=False)
     ctx.touch(init)
@@ -293,14 +317,10 @@ def check_delegation(ctx):
                     bad.append(norm(n.ast))
         ctx.ob("C03.P2", m.qualname, not bad, "header-only is decided by `data is None`" if not bad else
                f"`{bad[0]}` tests the truthiness of the variable tree; variables define __len__, so a zero-length list/text is treated like 'no body' (e.g. S1F3([]) is sent as an empty body that the receiver cannot decode)", key="identity-test", where=m.where)
-    cfg = cfg_of(enc.node)
-    rets = {norm(n.ast.value): [(norm(t), v) for t, v in cfg.dominating_conditions(n)] for n in cfg.real_nodes() if isinstance(n.ast, ast.Return)}
-    ok = "self.data.encode()" in rets and "b''" in rets and rets["b''"] == [("self.data is None", True)]
-    ctx.ob("C03.P2", enc.qualname, ok, "the body is exactly the variable tree's encoding (empty only when the function has no structure)" if ok else f"encode returns {rets}", key="encode", where=enc.where)
-    p = dec.node.args.args[1].arg
-    calls = [c for c in calls_in(dec.node) if call_name(c) == "self.data.decode"]
-    ok = len(calls) == 1 and [norm(a) for a in calls[0].args] == [p]
-    ctx.ob("C03.P2", dec.qualname, ok, "decoding is delegated to the variable tree from offset 0" if ok else "decode does not delegate to self.data.decode(data)", key="decode", where=dec.where)
+    from . import _codec
+
+    _codec.agree(ctx, "C03.P2", enc, REF_LOOKUP["sf_encode"], {"returns": "the body is exactly the variable tree's encoding (empty only when the function has no structure)"}, key_prefix="encode ")
+    _codec.agree(ctx, "C03.P2", dec, REF_LOOKUP["sf_decode"], {"stores": "decoding is delegated to the variable tree from offset 0 (nothing to do for a header-only function)"}, key_prefix="decode ")
     gen = [c for c in calls_in(init.node) if call_name(c) == "functions.generate"]
     ok = len(gen) == 1 and norm(gen[0].args[0]) == "self._data_format"
     ctx.ob("C03.P2", init.qualname, ok, "the variable tree is generated from the class's _data_format" if ok else "the variable tree is not generated from _data_format", key="generate", where=init.where)
